@@ -89,6 +89,16 @@ pub fn payload(class: &str) -> (Vec<u8>, HashMap<String, String>) {
             }
             format!("attrs{}", tag).into_bytes()
         }
+        "ws" => {
+            // whitespace (ASCII and Unicode) at the edges of keys and values, keys that differ only in it
+            attrs.insert(" padded-key ".into(), format!("  indented{}", tag));
+            attrs.insert("line".into(), "first line\n".into());
+            attrs.insert("k".into(), "plain".into());
+            attrs.insert("k ".into(), "trailing space in the key".into());
+            attrs.insert("\u{3000}キー".into(), "値\u{00A0}".into());
+            attrs.insert("tab\t".into(), "\tvalue\t".into());
+            format!(" ws{} ", tag).into_bytes()
+        }
         "utf8" => {
             attrs.insert("ключ".into(), "значение ✓".into());
             attrs.insert("键".into(), format!("值{}", tag));
